@@ -867,8 +867,16 @@ pub fn mutate(r: &mut Rng, w: &Wallet, tx: &mut Transaction, inputs_known: &[WCo
             "missing-coin"
         }
         8 if !tx.outputs.is_empty() => {
-            tx.outputs[0].value = CoinValue((1 << 120) + 1);
-            "value>max"
+            if r.chance(1, 2) {
+                tx.outputs[0].value = CoinValue((1 << 120) + 1);
+                "value>max"
+            } else {
+                // every single value is allowed, but the MEL outputs and the fee together do not fit a u128
+                let a = tx.outputs[0].covhash;
+                tx.outputs = (0..255).map(|_| out(a, 1 << 120, Denom::Mel)).collect();
+                tx.fee = CoinValue(1 << 120);
+                "mel-total-overflows"
+            }
         }
         9 => {
             let n = r.below(40) as usize;
